@@ -97,14 +97,19 @@ func (g *Generator) FuncToString(f *model.Function) string {
 		}
 	}
 
+	dst := f.Dst
+	if f.DstVarStyle == model.DstVarArg {
+		// In arg style the destination is always declared as a pointer.
+		dst.Pointer = true
+	}
 	if f.PreProcess != nil {
-		sb.WriteString(g.ManipulatorToString(f.PreProcess, f.Src, f.Dst, f.AdditionalArgs))
+		sb.WriteString(g.ManipulatorToString(f.PreProcess, f.Src, dst, f.AdditionalArgs))
 	}
 	for i := range f.Assignments {
 		sb.WriteString(AssignmentToString(f, f.Assignments[i]))
 	}
 	if f.PostProcess != nil {
-		sb.WriteString(g.ManipulatorToString(f.PostProcess, f.Src, f.Dst, f.AdditionalArgs))
+		sb.WriteString(g.ManipulatorToString(f.PostProcess, f.Src, dst, f.AdditionalArgs))
 	}
 	if f.RetError || f.DstVarStyle == model.DstVarReturn {
 		sb.WriteString("\nreturn\n")
